@@ -92,3 +92,9 @@ func vs_globalinv_compatTable() bool {
 			return vs_has(toStringCompatibility, c) ==> vs_has(toIDCompatibility, toStringCompatibility[c]) && toIDCompatibility[toStringCompatibility[c]] == c
 		})
 }
+
+// The type-name variables hold the Swagger type names (they are variables, not constants,
+// in the code; nothing in the package assigns them after initialisation).
+func vs_globalinv_typeNames() bool {
+	return ArrayType == "array" && ObjectType == "object"
+}
